@@ -165,9 +165,10 @@ inductive PackEmit (fs : FS) (cwd : Str) (o : PackOpts) (root : Str) : Entry →
       (hl : fs.lstat path = .ok (.link target))
       (hv : validSymlink cwd o.allow root path target = false)
       (ht : fs.lstat absTarget = .ok (.file perm mt content))
-      (hb : fs.readFile path = .ok body) :
+      (hb : fs.readFile path = .ok body)
+      (hlen : utf8Len body = utf8Len content) :
       PackEmit fs cwd o root
-        { name := sub, typ := tReg, mode := perm &&& 0o777, mtime := roundSec mt, link := [], body := content }
+        { name := sub, typ := tReg, mode := perm &&& 0o777, mtime := roundSec mt, link := [], body := body }
         (utf8Len body)
 
 /-- "the final state is the initial state plus a list of emissions" -/
@@ -229,17 +230,20 @@ theorem pk_visit_emits (fs : FS) (cwd : Str) (o : PackOpts) (rules : Option (Lis
     · simp only [↓reduceIte, Bool.false_eq_true]
       repeat' split
       all_goals first | exact .refl _ | skip
-      · rename_i hv
-        exact .one st (.symlink path _ _ hl hv)
-      · rename_i n hn _ _
-        exact ihN _ _ _ _ _ hn
-      · rename_i n hn _ _
-        exact ihN _ _ _ _ _ hn
-      · rename_i hv hd _ t perm' mt' c' hr _ body hb
-        have hd' : o.dereference = true := by simpa using hd
-        have hv' : validSymlink cwd o.allow root path target = false := by simpa using hv
-        exact .one st (.deref path _ target t perm' mt' c' body hd' hl hv'
-          (pk_resolveExternalLink_ok fs _ _ _ _ hr).1 hb)
+      · exact .one st (.symlink path _ _ hl ‹validSymlink cwd o.allow root path target = true›)
+      · exact ihN _ _ _ _ _ ‹fs.lstat _ = Except.ok _›
+      · exact ihN _ _ _ _ _ ‹fs.lstat _ = Except.ok _›
+      · have hd' : o.dereference = true := by
+          have : ¬ (!o.dereference) = true := by assumption
+          simpa using this
+        have hv' : validSymlink cwd o.allow root path target = false := by
+          have : ¬ validSymlink cwd o.allow root path target = true := by assumption
+          simpa using this
+        rename_i at' pm mt' ct hr _ body hb hne
+        have hlen : utf8Len body = utf8Len ct := by
+          simpa using hne
+        exact .one st (.deref path _ target at' pm mt' ct body hd' hl hv'
+          (pk_resolveExternalLink_ok fs _ _ _ _ hr).1 hb hlen)
     · intro _ _ h; cases h
 theorem pk_walk_emits (fs : FS) (cwd : Str) (o : PackOpts) (rules : Option (List Rule)) (root : Str) :
     ∀ fuel : Nat,
@@ -372,4 +376,120 @@ theorem pk_pack_emits (fs : FS) (cwd : Str) (o : PackOpts) (src : Str) :
     · rename_i n hn
       rw [pkFinish_fst]
       exact (pk_walk_emits fs cwd o _ _ packFuel).1 _ _ _ _ _ hn
+/-! ## the walk only appends (no hypothesis on the node) -/
+
+/-- the entry list of `st'` extends that of `st` -/
+def PackGrows (st st' : PState) : Prop := ∃ suffix, st'.entries = st.entries ++ suffix
+
+theorem PackGrows.refl (st : PState) : PackGrows st st := ⟨[], by simp⟩
+
+theorem PackGrows.trans {a b c : PState} (h1 : PackGrows a b) (h2 : PackGrows b c) : PackGrows a c := by
+  obtain ⟨s1, e1⟩ := h1
+  obtain ⟨s2, e2⟩ := h2
+  exact ⟨s1 ++ s2, by rw [e2, e1, List.append_assoc]⟩
+
+theorem pk_visit_grows (fs : FS) (cwd : Str) (o : PackOpts) (rules : Option (List Rule)) (root : Str) (fuel : Nat)
+    (ihN : ∀ src dst path node st,
+      PackGrows st (walkNode fs cwd o rules root src dst fuel path node st).1) :
+    ∀ src dst path node st,
+      PackGrows st (visit fs cwd o rules root src dst (fuel + 1) path node st).1 := by
+  intro src dst path node st
+  cases node <;> rw [visit] <;> first | (intro _ _ h; cases h) | skip
+  all_goals simp only [↓reduceIte, Bool.false_eq_true]
+  all_goals repeat' split
+  all_goals first | exact .refl _ | exact ⟨[_], rfl⟩ | exact ihN _ _ _ _ _
+
+theorem pk_walk_grows (fs : FS) (cwd : Str) (o : PackOpts) (rules : Option (List Rule)) (root : Str) :
+    ∀ fuel : Nat,
+      (∀ src dst path node st,
+        PackGrows st (walkNode fs cwd o rules root src dst fuel path node st).1) ∧
+      (∀ src dst path names st,
+        PackGrows st (walkChildren fs cwd o rules root src dst fuel path names st).1) ∧
+      (∀ src dst path node st,
+        PackGrows st (visit fs cwd o rules root src dst fuel path node st).1) := by
+  intro fuel
+  induction fuel with
+  | zero =>
+    refine ⟨?_, ?_, ?_⟩
+    · intro src dst path node st; rw [walkNode]; exact .refl _
+    · intro src dst path names st; rw [walkChildren]; exact .refl _
+    · intro src dst path node st; rw [visit]; exact .refl _
+  | succ fuel ih =>
+    obtain ⟨ihN, ihC, ihV⟩ := ih
+    refine ⟨?_, ?_, ?_⟩
+    · intro src dst path node st
+      have hv := ihV src dst path node st
+      cases node with
+      | dir perm mt =>
+        rw [walkNode]
+        simp only
+        split
+        · split
+          · exact hv
+          · exact hv.trans (ihC _ _ _ _ _)
+        · exact hv
+      | file perm mt c => rw [walkNode]; exact hv; intro _ _ h; cases h
+      | link t => rw [walkNode]; exact hv; intro _ _ h; cases h
+      | special => rw [walkNode]; exact hv; intro _ _ h; cases h
+    · intro src dst path names st
+      cases names with
+      | nil => rw [walkChildren]; exact .refl _
+      | cons name rest =>
+        rw [walkChildren]
+        simp only
+        split
+        · exact .refl _
+        · rename_i child hc
+          have hn := ihN src dst (pathJoin path name) child st
+          split
+          · exact hn.trans (ihC _ _ _ _ _)
+          · split
+            · exact hn.trans (ihC _ _ _ _ _)
+            · exact hn
+          · exact hn
+    · exact pk_visit_grows fs cwd o rules root fuel ihN
+/-! ## metadata accounting -/
+
+/-- content bytes an entry contributes to `Meta.Size` -/
+def pkBytes (e : Entry) : Nat := if e.isRegular then utf8Len e.body else 0
+
+/-- every emission accounts exactly the content bytes of the entry it writes -/
+theorem PackEmit.bytes {fs : FS} {cwd : Str} {o : PackOpts} {root : Str} {e : Entry} {k : Nat}
+    (h : PackEmit fs cwd o root e k) : k = pkBytes e := by
+  cases h <;> rfl
+
+/-- the metadata describes the entry list: names in order, and the content bytes of the regular
+entries -/
+def PackMetaOK (st : PState) : Prop :=
+  st.pmeta.files = st.entries.map (·.name) ∧ st.pmeta.size = (st.entries.map pkBytes).sum
+
+theorem packMetaOK_empty : PackMetaOK pkEmpty := ⟨rfl, rfl⟩
+
+theorem PackEmits.metaOK {fs : FS} {cwd : Str} {o : PackOpts} {root : Str} {st st' : PState}
+    (h : PackEmits fs cwd o root st st') (hm : PackMetaOK st) : PackMetaOK st' := by
+  obtain ⟨L, hL, e⟩ := h
+  subst e
+  have hk : L.map (·.2) = L.map (fun x => pkBytes x.1) :=
+    List.map_congr_left (fun x hx => (hL x hx).bytes)
+  constructor
+  · simp [pkExtend, hm.1]
+  · simp [pkExtend, hm.2, hk, List.map_map, Function.comp_def]
+
+/-- the sum of `pkBytes` is the fold over the regular entries -/
+theorem pk_sum_bytes (es : List Entry) :
+    (es.map pkBytes).sum = (es.filter (·.isRegular)).foldl (fun n e => n + utf8Len e.body) 0 := by
+  suffices h : ∀ (acc : Nat), acc + (es.map pkBytes).sum =
+      (es.filter (·.isRegular)).foldl (fun n e => n + utf8Len e.body) acc by
+    simpa using h 0
+  induction es with
+  | nil => intro acc; simp
+  | cons e es ih =>
+    intro acc
+    by_cases hr : e.isRegular = true
+    · simp only [List.map_cons, List.sum_cons, List.filter_cons_of_pos hr, List.foldl_cons]
+      rw [← ih]
+      simp [pkBytes, hr, Nat.add_assoc]
+    · simp only [List.map_cons, List.sum_cons, List.filter_cons_of_neg hr]
+      rw [← ih]
+      simp [pkBytes, hr]
 end Slug
